@@ -1,11 +1,15 @@
 package typed
 
 import (
+	"math"
+	"unicode/utf8"
 	"bytes"
 	"fmt"
 	"strings"
 
+	"github.com/ipld/go-ipld-prime/codec"
 	"github.com/ipld/go-ipld-prime/codec/dagcbor"
+	"github.com/ipld/go-ipld-prime/codec/dagjson"
 	"github.com/ipld/go-ipld-prime/datamodel"
 	"github.com/ipld/go-ipld-prime/schema"
 
@@ -48,6 +52,10 @@ var AllVariants = false
 
 func FeedVariants(route string) []string {
 	switch route {
+	case "dagcbor":
+		// through a decoder: the raw dag-cbor encoding, and the dag-json text where that format can
+		// carry the input (JSONCarries); both are reported under the base route
+		return []string{"dagcbor", "dagjson"}
 	case "entry":
 		return []string{"entry", "entry-nohint"}
 	case "keyvalue":
@@ -56,6 +64,39 @@ func FeedVariants(route string) []string {
 		}
 	}
 	return []string{route}
+}
+
+// JSONCarries: can the DAG-JSON text of v be decoded back to v (no repeated keys, no integer above
+// MaxInt64, floats finite and not integral, no reserved shape, valid UTF-8)?
+func JSONCarries(v ref.Val) bool {
+	switch v.K {
+	case ref.KUint:
+		return false
+	case ref.KFloat:
+		return !math.IsNaN(v.F) && !math.IsInf(v.F, 0) && v.F != math.Trunc(v.F)
+	case ref.KString:
+		return utf8.ValidString(v.S)
+	case ref.KList:
+		for _, c := range v.L {
+			if !JSONCarries(c) {
+				return false
+			}
+		}
+	case ref.KMap:
+		if ref.JsonReserved(v) {
+			return false
+		}
+		seen := map[string]bool{}
+		for _, e := range v.M {
+			if seen[e.K] || !utf8.ValidString(e.K) || !JSONCarries(e.V) {
+				return false
+			}
+			seen[e.K] = true
+		}
+	case ref.KAbsent:
+		return false
+	}
+	return true
 }
 
 // assignHinted is the entry route (AssembleEntry) or the key/value route with every size hint -1.
@@ -145,6 +186,13 @@ func Feed(eng Engine, s *rs.Schema, typeName string, repr bool, route string, in
 			err = assignHinted(nb, in, true)
 		case "keyvalue-nohint":
 			err = assignHinted(nb, in, false)
+		case "dagjson":
+			var buf bytes.Buffer
+			if e := (dagjson.EncodeOptions{EncodeLinks: true, EncodeBytes: true, MapSortMode: codec.MapSortMode_None}).Encode(ref.Basic(in), &buf); e != nil {
+				err = fmt.Errorf("harness: unencodable input: %v", e)
+				return
+			}
+			err = dagjson.Decode(nb, bytes.NewReader(buf.Bytes()))
 		case "dagcbor":
 			enc, e := ref.CborEncodeRaw(in)
 			if e != nil {
